@@ -1,3 +1,217 @@
+import PB.Model.Paths
+import PB.Gen.Paths
 import PB.Drv.Loop
-/- Driver stub for C18 (model not built yet): every op is rejected. -/
-def main : IO Unit := PB.Drv.lineLoop (fun _ => "bad-op")
+/-
+Driver for C18.  First line of a case: `sb <comp> <rootRel> <variant> <cwdRel>`; then one component call per
+line (see harness/cmd/hx-c18/main.go).  The decisions and resulting paths come from `PB.Model.Paths`; what the
+operating system then answers (file / directory / absent / blocked by a file) is looked up in the fixed content
+the harness puts below the root.  The model never touches anything outside the root, so every line ends in
+`outside=none`.
+-/
+namespace PB.Drv.C18
+open PB PB.Paths
+
+def sbx : Path := [47, 83, 66, 88, 55] -- "/SBX7"
+
+def bs (s : String) : Path := s.toUTF8.toList
+
+def hexList (xs : List Path) : String :=
+  if xs.isEmpty then "_" else String.intercalate "," (xs.map toHex)
+
+def parseHexList (s : String) : Option (List Path) :=
+  if s = "_" then some [] else (s.splitOn ",").mapM parseHex
+
+structure Cfg where
+  comp : String
+  root : Path        -- clean virtual root
+  rootGiven : Path   -- as handed to the component (trailing slash in variant `slash`)
+  variant : String
+  cwd : Path
+
+inductive Kind where
+  | file | dir | absent | blocked
+  deriving DecidableEq
+
+/-- Position of `p` relative to `root` (`none`: not below the root). -/
+def relTo (root p : Path) : Option Path :=
+  if p = root then some []
+  else if hasPrefix p (root ++ [47]) then some (p.drop (root.length + 1))
+  else none
+
+def kindIn (files dirs : List Path) (rel : Path) : Kind :=
+  if files.contains rel then .file
+  else if rel = [] ∨ dirs.contains rel then .dir
+  else if files.any (fun f => hasPrefix rel (f ++ [47])) then .blocked
+  else .absent
+
+def kindAt (files dirs : List Path) (root p : Path) : Kind :=
+  match relTo root p with
+  | some rel => kindIn files dirs rel
+  | none => .absent
+
+def fstFiles : List Path := [bs "a", bs "d/b", bs "d/e/c"]
+def fstDirs : List Path := [bs "d", bs "d/e"]
+def updFiles : List Path := [bs "all/sub/y_v2-0-1.txt", bs "all/x_v1-0-0", bs "readme"]
+def updIds : List (Path × Path) := [(bs "all/sub/y_v2-0-1.txt", bs "all/sub/y.txt"), (bs "all/x_v1-0-0", bs "all/x")]
+def updDirs : List Path := [bs "all", bs "all/sub", bs "tmp"]
+
+def underRel (r f : Path) : Bool := r = [] || f = r || hasPrefix f (r ++ [47])
+
+def fin (dec : String) : String := dec ++ " outside=none"
+
+def rej (e : Err) : String := fin s!"rej {e.str}"
+
+def doFst (c : Cfg) (op : String) (key : Path) : String :=
+  let k := kindAt fstFiles fstDirs c.root
+  match op with
+  | "put" => match buildFilePath c.root key true with
+    | .error e => rej e
+    | .ok dst => match k dst with
+      | .file | .absent => fin s!"acc created {hexList [dst]}"
+      | _ => fin "acc oserr"
+  | "get" => match buildFilePath c.root key true with
+    | .error e => rej e
+    | .ok dst => match k dst with
+      | .file => fin s!"acc data {toHex dst}"
+      | .absent => fin "acc notfound"
+      | _ => fin "acc oserr"
+  | "del" => match buildFilePath c.root key true with
+    | .error e => rej e
+    | .ok dst => match k dst with
+      | .file => fin s!"acc deleted {hexList [dst]}"
+      | _ => fin "acc oserr"
+  | "qry" =>
+    let stat : Path → Option StatKind := fun p => match k p with
+      | .dir => some .dir | .file => some .file | .absent => some .absent | .blocked => none
+    match buildFilePath c.root key false with
+    | .error e => rej e
+    | .ok wp => match stat wp with
+      | none => fin "acc oserr"
+      | some _ =>
+        match queryWalkRoot c.root key (fun p => (stat p).getD .absent) with
+        | .error e => rej e
+        | .ok wr => match k wr, relTo c.root wr with
+          | .dir, some r => fin s!"acc keys {hexList ((fstFiles.filter (underRel r)).map (fun f => c.root ++ 47 :: f))}"
+          | _, _ => fin "acc keys _"  -- the walk fails asynchronously and delivers nothing
+  | _ => "bad-op"
+
+def dedup : List Path → List Path
+  | [] => []
+  | x :: xs => x :: (dedup xs).filter (· ≠ x)
+
+def showEnsure (c : Cfg) (r : Except Err (List Path)) : String :=
+  match r with
+  | .error e => rej e
+  | .ok dirs =>
+    let ds := dedup (dirs.map clean)
+    let ds := if c.variant = "noexist" then ds else ds.filter (· ≠ c.root)
+    fin s!"acc dirs {hexList ds}"
+
+def bytesLt : Path → Path → Bool
+  | [], [] => false
+  | [], _ :: _ => true
+  | _ :: _, [] => false
+  | a :: as, b :: bs => if a < b then true else if b < a then false else bytesLt as bs
+
+def insertSorted (x : Path) : List Path → List Path
+  | [] => [x]
+  | y :: ys => if bytesLt y x then y :: insertSorted x ys else x :: y :: ys
+
+def sortPaths (xs : List Path) : List Path := xs.foldr insertSorted []
+
+/-- The unpack loop with the state of the unpack directory: (path, isDir). -/
+def unzLoop (tmp : Path) : List (Path × Bool) → List Path → String
+  | st, [] =>
+    let names := st.map (fun (p, d) => let rel := p.drop (tmp.length + 1); if d then rel ++ [47] else rel)
+    fin s!"acc files {hexList (sortPaths names)}"
+  | st, n :: ns =>
+    match unpackDst tmp n with
+    | .error e => rej e
+    | .ok dst =>
+      let isDir := hasSuffix n [47]
+      let parent := dirOf dst
+      if parent ≠ tmp ∧ ¬ st.contains (parent, true) then fin "acc oserr"
+      else if isDir then
+        if st.any (fun e => e.1 = dst) then fin "acc oserr" else unzLoop tmp (st ++ [(dst, true)]) ns
+      else if st.contains (dst, true) then fin "acc oserr"
+      else if st.contains (dst, false) then unzLoop tmp st ns
+      else unzLoop tmp (st ++ [(dst, false)]) ns
+
+def doScan (c : Cfg) (arg : Path) : String :=
+  match scanRoot c.root c.cwd arg with
+  | .error e => rej e
+  | .ok r =>
+    if hasPrefix r (join2 c.root (bs "tmp")) then fin "acc ids _"
+    else match kindAt updFiles updDirs c.root r, relTo c.root r with
+      | .dir, some rel =>
+        fin s!"acc ids {hexList ((updIds.filter (fun e => underRel rel e.1)).map (·.2))}"
+      | .file, some rel => fin s!"acc ids {hexList ((updIds.filter (fun e => e.1 = rel)).map (·.2))}"
+      | _, _ => fin "acc oserr"
+
+def hexOut (p : Path) : String := toHex p
+
+def doLib (f : List String) : String :=
+  match f with
+  | ["clean", a] => match parseHex a with | some a => hexOut (clean a) | none => "bad-op"
+  | ["dir", a] => match parseHex a with | some a => hexOut (dirOf a) | none => "bad-op"
+  | ["base", a] => match parseHex a with | some a => hexOut (baseOf a) | none => "bad-op"
+  | ["join", a, b] => match parseHex a, parseHex b with
+    | some a, some b => hexOut (join2 a b) | _, _ => "bad-op"
+  | ["rel", a, b] => match parseHex a, parseHex b with
+    | some a, some b => (match relOf a b with | some r => hexOut r | none => "err") | _, _ => "bad-op"
+  | ["joinl", l] => match parseHexList l with | some xs => hexOut (joinList xs) | none => "bad-op"
+  | ["bridge", a] => match parseHex a with
+    | some a => (match bridgeURL PB.Gen.Paths.apiV1Path a with
+      | .error e => s!"rej {e.str}" | .ok u => s!"acc url {toHex u}")
+    | none => "bad-op"
+  | _ => "bad-op"
+
+/-- `s.real(p)` of the harness is the identity on the virtual side. -/
+def validRel (p : Path) : Bool :=
+  p ≠ [] && p.head? ≠ some 47 && (splitSep p).all (fun s => s ≠ [] && s ≠ dot && s ≠ dotdot && !s.contains 0)
+
+def step (st : Option Cfg) (line : String) : Option Cfg × String :=
+  match PB.Drv.words line with
+  | ["sb", comp, rr, variant, cw] =>
+    match parseHex rr, parseHex cw with
+    | some rr, some cw =>
+      if ¬ validRel rr ∨ (cw ≠ [] ∧ ¬ validRel cw) then (st, "bad-op")
+      else if ¬ (comp = "fst" ∨ comp = "ds" ∨ comp = "upd" ∨ comp = "lib") then (st, "bad-op")
+      else if ¬ (variant = "plain" ∨ variant = "slash" ∨ variant = "noexist") then (st, "bad-op")
+      else
+        let root := sbx ++ 47 :: rr
+        let given := if variant = "slash" then root ++ [47] else root
+        let cwd := if cw = [] then sbx else sbx ++ 47 :: cw
+        (some { comp, root, rootGiven := given, variant, cwd }, "ok")
+    | _, _ => (st, "bad-op")
+  | f =>
+    match st with
+    | none => (st, "bad-op")
+    | some c =>
+      let out :=
+        if c.comp = "lib" then doLib f
+        else match c.comp, f with
+          | "fst", [op, k] => match parseHex k with
+            | some k => doFst c op k | none => "bad-op"
+          | "ds", ["ens", t, p] =>
+            if t = "r" ∨ t = "c" ∨ t = "g" then
+              match parseHex p with | some p => showEnsure c (ensureAbsPath c.rootGiven p) | none => "bad-op"
+            else "bad-op"
+          | "ds", ["enr", t, p] =>
+            if t = "r" ∨ t = "c" ∨ t = "g" then
+              match parseHex p with | some p => showEnsure c (ensureRelPath c.rootGiven p) | none => "bad-op"
+            else "bad-op"
+          | "ds", ["end", t, l] =>
+            if t = "r" ∨ t = "c" ∨ t = "g" then
+              match parseHexList l with | some xs => showEnsure c (ensureRelDir c.rootGiven xs) | none => "bad-op"
+            else "bad-op"
+          | "upd", ["scan", p] => match parseHex p with
+            | some p => doScan c p | none => "bad-op"
+          | "upd", ["unz", l] => match parseHexList l with
+            | some xs => unzLoop (c.root ++ bs "/tmp/thing_v1-0-0") [] xs | none => "bad-op"
+          | _, _ => "bad-op"
+      (st, out)
+
+end PB.Drv.C18
+
+def main : IO Unit := PB.Drv.runState (none : Option PB.Drv.C18.Cfg) PB.Drv.C18.step
